@@ -12,6 +12,9 @@ for d in sorted(os.listdir(ROOT)):
     if not os.path.exists(pd): continue
     if only and not any(d.startswith(o) for o in only): continue
     prop = d.split("-")[0]
+    mp0 = os.path.join(ROOT, d, "meta.json")
+    if os.path.exists(mp0) and json.load(open(mp0)).get("obsolete_after"):
+        res[d] = "OBSOLETE (" + json.load(open(mp0))["obsolete_after"] + ")"; print(f"{d:45s} {prop}: {res[d]}", flush=True); continue
     subprocess.run(["git", "-C", "/repo", "checkout", "--", "."], check=True)
     r = subprocess.run(["git", "-C", "/repo", "apply", pd])
     if r.returncode != 0: res[d] = "patch does not apply"; continue
